@@ -14,7 +14,7 @@ Grid == {R(-2), Q(-3, 2), R(-1), Q(-1, 2), Zero, Q(1, 2), R(1), Q(3, 2), R(2)}
 Ls == {Zero, R(1), R(-1), Q(-3, 2), Q(1, 4)}
 As == {R(1), R(-2), R(4), Q(1, 3), Q(-1, 4)}
 Qs == {Q(1, 3), Q(-1, 3), Q(1, 2), Q(-1, 2), Q(2, 3), Q(-2, 3), Q(3, 2), Q(-3, 2), R(2), R(-2), R(5), R(-5),
-       R(49), Q(-1, 49), Q(9, 10), Q(-11, 10), Q(1, 100)}
+       R(49), Q(-1, 49), Q(9, 10), Q(-11, 10), Q(1, 100), R(-1)}        \* q = -1: a pure oscillation about L
 
 GridInit == fam = "grid" /\ e0 \in Grid /\ e1 \in Grid /\ e2 \in Grid /\ L = Zero
 GeoInit  == /\ fam = "geo" /\ L \in Ls
